@@ -771,6 +771,7 @@ class Module:
         self.funcs = {}
         self.globals = {}
         self.declared = set()
+        self.aliases = {}
         self.files = []
 
     def load(self, path):
@@ -825,6 +826,9 @@ class Module:
                 kind = w
                 break
             if w == 'alias':
+                m2 = re.search(r'alias .*?, ptr @("[^"]*"|[-\w.$]+)\s*$', rest)
+                if m2:
+                    self.aliases[name] = m2.group(1).strip('"')
                 return
             raise Unsupported('global: ' + line[:120])
         g.constant = kind == 'constant'
@@ -836,6 +840,9 @@ class Module:
                 g.init = ('unsupported', str(e))
         m2 = re.search(r', align (\d+)', c.rest())
         g.align = int(m2.group(1)) if m2 else self.types.alignof(g.ty)
+        old = self.globals.get(name)
+        if old is not None and g.external and not old.external:
+            return
         self.globals[name] = g
 
     def _define(self, header, body):
@@ -878,6 +885,8 @@ class Module:
 
     def func(self, name):
         f = self.funcs.get(name)
+        if f is None and name in self.aliases:
+            return self.func(self.aliases[name])
         if f is not None and f.raw is not None:
             self._parse_body(f)
         return f
